@@ -3,5 +3,6 @@ CONSTANTS
   Cases <- GEN_Cases
 INVARIANT Emit
 INVARIANT PaddingNoRidge
+INVARIANT IdentityMasked
 INVARIANT MaskAgrees
 CHECK_DEADLOCK FALSE
